@@ -7,7 +7,7 @@ package checks
 // hand-written topologies that put a floor under the generator.
 
 func c03N() c03NodePlan {
-	return c03NodePlan{Next: -1, M: -1, MM: -1, Leaf: -1, Pair: [2]int{-1, -1}, Any: c03AnyPlan{K: "nil"}}
+	return c03NodePlan{Next: -1, M: -1, MM: -1, Leaf: -1, Skip: -1, SkipM: -1, Pair: [2]int{-1, -1}, Any: c03AnyPlan{K: "nil"}, SkipAny: c03AnyPlan{K: "nil"}}
 }
 
 func c03PlanOf(fam string, nodes ...c03NodePlan) *c03Plan {
@@ -103,6 +103,63 @@ func c03Fixed() []c03FixedCase {
 		p.ASpare = []int{4, 1}
 		p.AMaps = []map[string]c03AnyPlan{{"s": {K: "slice", L: []int{}, C: 3}, "as": {K: "aslice", I: 0}}}
 		addA("zero-length-slices-with-spare-capacity", p, 0, 2, 4)
+	}
+
+	// --- exported dials:"-" fields carry references through every copy
+	{
+		p := c03PlanOf("A",
+			c03With(c03N(), func(n *c03NodePlan) {
+				n.Next, n.Skip = 1, 1
+				n.M, n.SkipM = 0, 0
+				n.Kids, n.SkipS = []int{1, 0}, []int{1, 0}
+				n.Any, n.SkipAny = c03AnyPlan{K: "ptr", I: 1}, c03AnyPlan{K: "ptr", I: 1}
+			}),
+			c03With(c03N(), func(n *c03NodePlan) { n.Skip = 0; n.SkipAny = c03AnyPlan{K: "map", I: 0}; n.SkipS = []int{} }))
+		p.Maps = []map[string]int{{"a": 1, "r": 0}}
+		addA("skipped-fields-share-nodes-with-config-fields", p, 0, 1, 2, 4)
+		q := c03PlanOf("A",
+			c03With(c03N(), func(n *c03NodePlan) {
+				n.Skip = 1
+				n.SkipM = 0
+				n.SkipS = []int{2, 2}
+				n.SkipAny = c03AnyPlan{K: "slice", L: []int{1, 2}}
+			}),
+			c03With(c03N(), func(n *c03NodePlan) { n.Skip = 0 }),
+			c03With(c03N(), func(n *c03NodePlan) { n.SkipAny = c03AnyPlan{K: "ptr", I: 2} }))
+		q.Maps = []map[string]int{{"x": 2}}
+		addA("nodes-reachable-only-through-skipped-fields", q, 0, 2)
+	}
+	// --- overlapping views of one backing array held in interface values
+	{
+		p := c03PlanOf("A",
+			c03With(c03N(), func(n *c03NodePlan) {
+				n.Kids = []int{1, 2, 3, 4}
+				n.Any = c03AnyPlan{K: "view", I: 0, L: []int{0, 3}}
+				n.SkipAny = c03AnyPlan{K: "view", I: 0, L: []int{0, 3}} // the same header twice
+			}),
+			c03With(c03N(), anyOf("view", 0, 0, 1)), // same start, shorter
+			c03With(c03N(), anyOf("view", 0, 1, 3)), // different start
+			c03With(c03N(), anyOf("view", 0, 0, 2)), // what append(all[:1], x) within capacity gives
+			c03With(c03N(), anyOf("view", 0, 0, 0)))
+		p.Backs = [][]int{{1, 2, 0}}
+		addA("iface-held-overlapping-views-of-one-pointer-slice", p, 0, 1)
+		// the shorter view is met first
+		q := c03PlanOf("A",
+			c03With(c03N(), func(n *c03NodePlan) { n.Next = 1; n.Any = c03AnyPlan{K: "view", I: 0, L: []int{0, 1}} }),
+			c03With(c03N(), anyOf("view", 0, 0, 2)))
+		q.Backs = [][]int{{1, 0}}
+		addA("iface-held-prefix-view-met-before-the-longer-one", q, 0, 2)
+		a := c03PlanOf("A",
+			c03With(c03N(), func(n *c03NodePlan) { n.Kids = []int{1, 2, 3}; n.Any = c03AnyPlan{K: "aview", I: 0, L: []int{0, 3}} }),
+			c03With(c03N(), anyOf("aview", 0, 0, 1)),
+			c03With(c03N(), anyOf("aview", 0, 1, 3)),
+			c03With(c03N(), func(n *c03NodePlan) {
+				n.Any = c03AnyPlan{K: "aview", I: 0, L: []int{0, 3}}
+				n.SkipAny = c03AnyPlan{K: "aslice", I: 0}
+			}))
+		a.ASlices = [][]c03AnyPlan{{{K: "ptr", I: 1}, {K: "int", I: 1}, {K: "ptr", I: 0}}}
+		a.ASpare = []int{2}
+		addA("iface-held-overlapping-views-of-one-any-slice", a, 0, 1)
 	}
 
 	// --- plain topologies
@@ -229,6 +286,31 @@ func c03Fixed() []c03FixedCase {
 		addB("restack/empty-maps-and-spare-capacity-slices", &c03Scenario{Defaults: em, Watch: 0,
 			Sources: []c03SrcPlan{{Plan: es, Set: noAny}},
 			Updates: []c03SrcPlan{{Plan: e, Set: noAny, Ptr: true}, {Plan: em, Set: noAny}}}, "")
+	}
+	// dials:"-" fields and overlapping interface-held views through Config and re-stacks
+	{
+		sk := c03PlanOf("B",
+			c03With(c03N(), func(n *c03NodePlan) {
+				n.Kids, n.SkipS = []int{1, 2}, []int{1, 2}
+				n.Skip = 1
+				n.M, n.SkipM = 0, 0
+				n.SkipAny = c03AnyPlan{K: "ptr", I: 2}
+				n.Any = c03AnyPlan{K: "view", I: 0, L: []int{0, 2}}
+			}),
+			c03With(c03N(), func(n *c03NodePlan) {
+				n.Skip = 0
+				n.SkipAny = c03AnyPlan{K: "view", I: 0, L: []int{0, 1}}
+				n.Any = c03AnyPlan{K: "view", I: 0, L: []int{1, 2}}
+			}),
+			c03With(c03N(), func(n *c03NodePlan) { n.Skip = 2; n.SkipM = 0; n.Any = c03AnyPlan{K: "view", I: 0, L: []int{0, 2}} }))
+		sk.Maps = []map[string]int{{"a": 1, "b": 2}}
+		sk.Backs = [][]int{{2, 1}}
+		addB("config/defaults-skipped-fields-and-overlapping-views", &c03Scenario{Defaults: sk, Watch: -1}, "")
+		addB("config/source-nodes-with-skipped-fields-and-overlapping-views", &c03Scenario{Defaults: c03TrivialPlan("B"), Watch: -1,
+			Sources: []c03SrcPlan{{Plan: sk, Set: all}}}, "")
+		addB("restack/defaults-skipped-fields-survive-restacks", &c03Scenario{Defaults: sk, Watch: 0,
+			Sources: []c03SrcPlan{{Plan: bRich, Set: []string{"Kids", "M", "Leaf"}}},
+			Updates: []c03SrcPlan{{Plan: sk, Set: []string{"Kids", "Pair"}, Ptr: true}, {Plan: b2, Set: []string{"Kids"}}}}, "")
 	}
 	// two layers set Any: a slice/array/map payload replaces the lower layer's value as a whole
 	addB("config/slice-in-iface-set-by-two-layers", &c03Scenario{Defaults: c03TrivialPlan("B"), Watch: -1,
